@@ -149,6 +149,40 @@ def desugar_namedtuples(tree: ast.Module) -> int:
     before = sum(1 for _ in ast.walk(tree))
     rw = _Rewrite(classes, field_index, blocked)
     rw.visit(tree)
+    # `rec._asdict()` for a local bound (once) to a record built here: the dict display of its fields
+    for fn in [n for n in ast.walk(tree) if isinstance(n, (ast.FunctionDef, ast.AsyncFunctionDef))]:
+        bound: Dict[str, List[ast.AST]] = {}
+        for n in ast.walk(fn):
+            if isinstance(n, ast.Name) and isinstance(n.ctx, (ast.Store, ast.Del)):
+                bound.setdefault(n.id, []).append(n)
+        rec_of: Dict[str, str] = {}
+        for n in ast.walk(fn):
+            tg = v = None
+            if isinstance(n, ast.Assign) and len(n.targets) == 1:
+                tg, v = n.targets[0], n.value
+            elif isinstance(n, ast.AnnAssign) and n.value is not None:
+                tg, v = n.target, n.value
+            if isinstance(tg, ast.Name) and isinstance(v, ast.Tuple) and getattr(v, '_nt', None) in classes and len(bound.get(tg.id, [])) == 1:
+                rec_of[tg.id] = v._nt  # type: ignore[attr-defined]
+        if not rec_of:
+            continue
+
+        class AsDict(ast.NodeTransformer):
+            def visit_Call(self, node: ast.Call):
+                self.generic_visit(node)
+                f = node.func
+                if isinstance(f, ast.Attribute) and f.attr == '_asdict' and not node.args and not node.keywords \
+                        and isinstance(f.value, ast.Name) and f.value.id in rec_of:
+                    fields = classes[rec_of[f.value.id]]
+                    d = ast.Dict(keys=[ast.Constant(value=nm) for nm, _ in fields],
+                                 values=[ast.Subscript(value=ast.Name(id=f.value.id, ctx=ast.Load()), slice=ast.Constant(value=i), ctx=ast.Load())
+                                         for i, _ in enumerate(fields)])
+                    for y in ast.walk(d):
+                        ast.copy_location(y, node)
+                    d._nt_asdict = rec_of[f.value.id]  # type: ignore[attr-defined]
+                    return d
+                return node
+        AsDict().visit(fn)
     ast.fix_missing_locations(tree)
     count = sum(1 for n in ast.walk(tree) if hasattr(n, '_nt') or hasattr(n, '_nt_field'))
     return count
@@ -273,6 +307,8 @@ def inline_aliases(tree: ast.Module) -> int:
                             and isinstance(st0.value, ast.Call):
                         built_attrs.add(tg0.attr)
 
+    module_single = _module_single_names(tree)
+
     def scan(node, in_init):
         for ch in ast.iter_child_nodes(node):
             if isinstance(ch, _FN):
@@ -332,7 +368,7 @@ def inline_aliases(tree: ast.Module) -> int:
                                 ost = n_
                         return ost is not None and not _in_loop(outer, ost)
                 outer = getattr(outer, '_alias_parent', None)
-            return False
+            return r in module_single
 
         subst: Dict[str, ast.expr] = {}
         for a, st in assigns.items():
@@ -350,8 +386,9 @@ def inline_aliases(tree: ast.Module) -> int:
             if root == a or not stable_root(root):
                 continue
             if not chain:
-                # y = x
-                if root == 'self' or root in params or root in assigns:
+                # y = x  (x: self, a parameter, a single-assignment local, or a single-assignment variable of an
+                # enclosing function / of the module that no closure rebinds)
+                if root == 'self' or root in params or root in assigns or root not in bound:
                     subst[a] = v
                 continue
             if any(c in props for c in chain):
@@ -420,7 +457,284 @@ def inline_aliases(tree: ast.Module) -> int:
         # do not rewrite the defining assignments' own values (they contain no alias uses of themselves)
         R().visit(fn)
         count += nonlocal_count[0]
+        # the defining assignments are dead stores of a pure value now: drop them
+        dead = {id(assigns[a]): a for a in subst}
+        gone: Set[str] = set()
+        for node in ast.walk(fn):
+            for field in ('body', 'orelse', 'finalbody'):
+                body = getattr(node, field, None)
+                if isinstance(body, list):
+                    for i, st in enumerate(body):
+                        if id(st) in dead:
+                            ps = ast.Pass()
+                            ast.copy_location(ps, st)
+                            body[i] = ps
+                            gone.add(dead[id(st)])
+        if gone:
+            fn._removed_locals = set(getattr(fn, '_removed_locals', set())) | gone  # type: ignore[attr-defined]
     return count
+
+
+def _is_drain_def(fn: ast.AST) -> bool:
+    """`def f(it): deque(it, maxlen=0)` (docstring aside): a function that does nothing but exhaust its argument."""
+    if not isinstance(fn, ast.FunctionDef) or fn.decorator_list:
+        return False
+    a = fn.args
+    if len(a.args) != 1 or a.vararg or a.kwarg or a.kwonlyargs or a.posonlyargs:
+        return False
+    body = [st for st in fn.body if not (isinstance(st, ast.Expr) and isinstance(st.value, ast.Constant))]
+    if len(body) != 1:
+        return False
+    st = body[0]
+    v = st.value if isinstance(st, (ast.Expr, ast.Return)) else None
+    if isinstance(st, ast.For):
+        return isinstance(st.iter, ast.Name) and st.iter.id == a.args[0].arg and not st.orelse \
+            and all(isinstance(b, ast.Pass) for b in st.body)
+    return isinstance(v, ast.Call) and ast.unparse(v.func).split('.')[-1] == 'deque' and len(v.args) == 1 \
+        and isinstance(v.args[0], ast.Name) and v.args[0].id == a.args[0].arg and len(v.keywords) == 1 \
+        and v.keywords[0].arg == 'maxlen' and isinstance(v.keywords[0].value, ast.Constant) and v.keywords[0].value.value == 0
+
+
+def drain_of_map(tree: ast.Module, unit_path: str = '') -> int:
+    """`exhaust(map(f, it))` / `deque(map(f, it), maxlen=0)` / `list(map(f, it))` as a statement whose value is
+    discarded  ->  `for __drain in it: f(__drain)` : the same calls in the same order.  `exhaust` is accepted when
+    its definition (here or in the sibling module it is imported from) does nothing but exhaust its argument."""
+    import os
+    drainers: Set[str] = set()
+    for st in tree.body:
+        if _is_drain_def(st):
+            drainers.add(st.name)
+        elif isinstance(st, ast.ImportFrom) and st.level >= 1 and st.module and unit_path:
+            base = os.path.dirname(unit_path)
+            for _ in range(st.level - 1):
+                base = os.path.dirname(base)
+            cand = os.path.join(base, *st.module.split('.')) + '.py'
+            if os.path.exists(cand):
+                try:
+                    other = ast.parse(open(cand, encoding='utf-8').read())
+                except SyntaxError:
+                    continue
+                defs = {d.name: d for d in other.body if isinstance(d, ast.FunctionDef)}
+                for al in st.names:
+                    if al.name in defs and _is_drain_def(defs[al.name]):
+                        drainers.add(al.asname or al.name)
+    count = 0
+    for fn in [n for n in ast.walk(tree) if isinstance(n, _FN)]:
+        added: Set[str] = set()
+        for node in ast.walk(fn):
+            for field in ('body', 'orelse', 'finalbody'):
+                body = getattr(node, field, None)
+                if not isinstance(body, list):
+                    continue
+                for i, st in enumerate(body):
+                    if not (isinstance(st, ast.Expr) and isinstance(st.value, ast.Call)):
+                        continue
+                    c = st.value
+                    fname = ast.unparse(c.func)
+                    is_drain = (fname in drainers and len(c.args) == 1 and not c.keywords) or \
+                        (fname.split('.')[-1] == 'deque' and len(c.args) == 1 and len(c.keywords) == 1 and c.keywords[0].arg == 'maxlen'
+                         and isinstance(c.keywords[0].value, ast.Constant) and c.keywords[0].value.value == 0) or \
+                        (fname in ('list', 'tuple', 'set') and len(c.args) == 1 and not c.keywords)
+                    if not is_drain:
+                        continue
+                    m = c.args[0]
+                    if not (isinstance(m, ast.Call) and isinstance(m.func, ast.Name) and m.func.id == 'map' and len(m.args) == 2
+                            and not m.keywords and not any(isinstance(a, ast.Starred) for a in m.args)):
+                        continue
+                    f_, it_ = m.args
+                    if not isinstance(f_, (ast.Name, ast.Attribute)):
+                        continue
+                    var = f'__drain_{st.lineno}_{st.col_offset}'
+                    call = ast.Call(func=f_, args=[ast.Name(id=var, ctx=ast.Load())], keywords=[])
+                    loop = ast.For(target=ast.Name(id=var, ctx=ast.Store()), iter=it_, body=[ast.Expr(value=call)], orelse=[], type_comment=None)
+                    for y in ast.walk(loop):
+                        if not hasattr(y, 'lineno'):
+                            ast.copy_location(y, st)
+                    ast.copy_location(loop, st)
+                    loop._drain_of_map = True  # type: ignore[attr-defined]
+                    body[i] = loop
+                    added.add(var)
+                    count += 1
+        if added:
+            # only the innermost function that holds the statement binds the variable
+            pass
+    # attribute the synthetic loop variables to the functions that own them
+    for fn in [n for n in ast.walk(tree) if isinstance(n, _FN)]:
+        own_added = {n.target.id for n in _own(fn) if isinstance(n, ast.For) and getattr(n, '_drain_of_map', False)}
+        if own_added:
+            fn._added_locals = set(getattr(fn, '_added_locals', set())) | own_added  # type: ignore[attr-defined]
+    return count
+
+
+def drop_annotations(tree: ast.Module) -> int:
+    """`target: T = value` -> `target = value` (the annotation of an assignment has no run-time effect on the
+    value or on the scope of the name); bare declarations `x: T` stay."""
+    count = 0
+    for node in ast.walk(tree):
+        for field in ('body', 'orelse', 'finalbody'):
+            body = getattr(node, field, None)
+            if not isinstance(body, list):
+                continue
+            for i, st in enumerate(body):
+                if isinstance(st, ast.AnnAssign) and st.value is not None:
+                    a = ast.Assign(targets=[st.target], value=st.value)
+                    ast.copy_location(a, st)
+                    for k, v in vars(st).items():
+                        if k.startswith('_') and k not in ('_fields', '_attributes', '_parent', '_alias_parent'):
+                            setattr(a, k, v)
+                    a._was_annotated = True  # type: ignore[attr-defined]
+                    body[i] = a
+                    count += 1
+    return count
+
+
+def _module_single_names(tree: ast.Module) -> Set[str]:
+    """Module-level names bound exactly once (an assignment outside any loop / a def / a class / an import) and named
+    in no `global` statement: they denote one object for the life of the module."""
+    n_bind: Dict[str, int] = {}
+    in_loop: Set[str] = set()
+
+    def add(n: str, loop: bool) -> None:
+        n_bind[n] = n_bind.get(n, 0) + 1
+        if loop:
+            in_loop.add(n)
+
+    def walk(node: ast.AST, loop: bool) -> None:
+        for ch in ast.iter_child_nodes(node):
+            if isinstance(ch, _FN + (ast.ClassDef,)):
+                add(ch.name, loop)
+                continue
+            if isinstance(ch, ast.Lambda):
+                continue
+            if isinstance(ch, ast.Name) and isinstance(ch.ctx, (ast.Store, ast.Del)):
+                add(ch.id, loop)
+            elif isinstance(ch, (ast.Import, ast.ImportFrom)):
+                for al in ch.names:
+                    add((al.asname or al.name).split('.')[0], loop)
+            elif isinstance(ch, ast.ExceptHandler) and ch.name:
+                add(ch.name, loop)
+            walk(ch, loop or isinstance(ch, (ast.For, ast.AsyncFor, ast.While)))
+    walk(tree, False)
+    globals_: Set[str] = set()
+    for n in ast.walk(tree):
+        if isinstance(n, ast.Global):
+            globals_ |= set(n.names)
+    return {n for n, k in n_bind.items() if k == 1 and n not in in_loop and n not in globals_}
+
+
+def inline_constants(tree: ast.Module) -> int:
+    """A single-assignment variable of a function (outside loops, rebound by no closure) or of the module whose
+    value is a literal constant - `None`, a number, a string, or a tuple of those - is replaced by the literal where
+    it is read, in the scope itself and in the closures that capture it.  Names compared by identity (`is`) keep
+    their name (a tuple literal would be a different object)."""
+    def literal(v: ast.AST) -> bool:
+        if isinstance(v, ast.Constant):
+            return True
+        if isinstance(v, ast.Tuple) and isinstance(v.ctx, ast.Load):
+            return all(literal(e) for e in v.elts)
+        if isinstance(v, ast.UnaryOp) and isinstance(v.op, ast.USub) and isinstance(v.operand, ast.Constant):
+            return True
+        return False
+
+    count = 0
+    scopes: List[ast.AST] = [tree] + [n for n in ast.walk(tree) if isinstance(n, _FN)]
+    mod_single = _module_single_names(tree)
+    for sc in scopes:
+        consts: Dict[str, ast.AST] = {}
+        if isinstance(sc, ast.Module):
+            for st in sc.body:
+                tg = v = None
+                if isinstance(st, ast.Assign) and len(st.targets) == 1:
+                    tg, v = st.targets[0], st.value
+                elif isinstance(st, ast.AnnAssign) and st.value is not None:
+                    tg, v = st.target, st.value
+                if isinstance(tg, ast.Name) and tg.id in mod_single and literal(v) and not tg.id.startswith('__'):
+                    consts[tg.id] = v
+        else:
+            bound = _bound_names(sc)
+            for n in _own(sc):
+                tg = v = None
+                if isinstance(n, ast.Assign) and len(n.targets) == 1:
+                    tg, v = n.targets[0], n.value
+                elif isinstance(n, ast.AnnAssign) and n.value is not None:
+                    tg, v = n.target, n.value
+                if isinstance(tg, ast.Name) and bound.get(tg.id, 0) == 1 and literal(v) and not _in_loop(sc, n):
+                    consts[tg.id] = v
+        if not consts:
+            continue
+        # closures / inner scopes that rebind the name (or declare it nonlocal/global) disqualify it;
+        # only *captured* reads are replaced in a function scope's own body when the read may come before the
+        # assignment - so in the scope's own body we leave reads alone unless the scope is the module
+        inner = [n for n in ast.walk(sc) if n is not sc and isinstance(n, _FN + (ast.Lambda, ast.ClassDef))]
+        rebinding: Set[str] = set()
+        for nf in inner:
+            if isinstance(nf, ast.Lambda):
+                a = nf.args
+                rebinding |= {p.arg for p in a.posonlyargs + a.args + a.kwonlyargs + ([a.vararg] if a.vararg else []) + ([a.kwarg] if a.kwarg else [])}
+            elif isinstance(nf, ast.ClassDef):
+                for x in ast.walk(nf):
+                    if isinstance(x, ast.Name) and isinstance(x.ctx, (ast.Store, ast.Del)):
+                        rebinding.add(x.id)
+            else:
+                rebinding |= set(_bound_names(nf))
+        for nm in list(consts):
+            if nm in rebinding:
+                del consts[nm]
+        # identity comparisons keep the name
+        for n in ast.walk(sc):
+            if isinstance(n, ast.Compare) and any(isinstance(o, (ast.Is, ast.IsNot)) for o in n.ops):
+                for x in [n.left] + n.comparators:
+                    if isinstance(x, ast.Name) and x.id in consts and not isinstance(consts[x.id], ast.Constant):
+                        del consts[x.id]
+        if not consts:
+            continue
+        own_nodes = set(map(id, _own(sc))) if not isinstance(sc, ast.Module) else set()
+        cnt = [0]
+
+        class R(ast.NodeTransformer):
+            def visit_Name(self, n: ast.Name):
+                if isinstance(n.ctx, ast.Load) and n.id in consts and id(n) not in own_nodes:
+                    new = _clone_expr(consts[n.id])
+                    for y in ast.walk(new):
+                        ast.copy_location(y, n)
+                    cnt[0] += 1
+                    return new
+                return n
+        if isinstance(sc, ast.Module):
+            # module constants: replace reads inside functions only (module-level code may run before the assignment)
+            for fn in [n for n in ast.walk(sc) if isinstance(n, _FN)]:
+                shadow = set(_bound_names(fn))
+                # names shadowed by this function or an enclosing function are not the module constant
+                o = getattr(fn, '_alias_parent', None)
+                while o is not None:
+                    if isinstance(o, _FN):
+                        shadow |= set(_bound_names(o))
+                    o = getattr(o, '_alias_parent', None)
+                saved = dict(consts)
+                for nm in shadow:
+                    consts.pop(nm, None)
+                if consts:
+                    for st in fn.body:
+                        _visit_skipping_defs(R(), st)
+                consts.clear()
+                consts.update(saved)
+        else:
+            R().visit(sc)
+        count += cnt[0]
+    return count
+
+
+def _visit_skipping_defs(tr: ast.NodeTransformer, st: ast.AST) -> None:
+    """Apply *tr* to the names of a statement without descending into nested function definitions
+    (they are handled as scopes of their own)."""
+    class W(ast.NodeTransformer):
+        def visit_FunctionDef(self, n):
+            return n
+        visit_AsyncFunctionDef = visit_FunctionDef
+
+        def visit_Name(self, n):
+            return tr.visit_Name(n)
+    W().visit(st)
 
 
 def _clone_expr(e: ast.AST) -> ast.AST:
